@@ -29,10 +29,15 @@ type ForkCase struct {
 	Fork     []string `json:"fork"`     // block ops of the fork
 	Importer int      `json:"importer"` // importer's head = main block number
 	Ucon     bool     `json:"ucon"`
+	Inact    bool     `json:"inact,omitempty"` // inactivity-slashing configuration (wait 1 round, two extra senators)
 }
 
 func (c ForkCase) String() string {
-	return fmt.Sprintf("fork@%d[%s] -> importer head M%d ucon=%v", c.ForkAt, strings.Join(c.Fork, " ; "), c.Importer, c.Ucon)
+	s := fmt.Sprintf("fork@%d[%s] -> importer head M%d ucon=%v", c.ForkAt, strings.Join(c.Fork, " ; "), c.Importer, c.Ucon)
+	if c.Inact {
+		s += " (inactivity slashing on)"
+	}
+	return s
 }
 
 func buildOn(r *mc.Run, n *chainx.Node, op string) (*types.Block, error) {
@@ -71,6 +76,10 @@ func runFork(r *mc.Run, c ForkCase) string {
 	defer importer.Close()
 	var seg types.Blocks
 	for _, op := range c.Fork {
+		if c.Inact && !chainx.Eligible(forkNode, f, op[:strings.Index(op, ":")]) {
+			r.Count("long_fork_cases_cut_at_a_proposer_that_is_not_eligible", 1)
+			break
+		}
 		var b *types.Block
 		var err error
 		if m, where := mc.CatchStack(func() { b, err = buildOn(r, forkNode, op) }); m != "" {
@@ -82,6 +91,9 @@ func runFork(r *mc.Run, c ForkCase) string {
 			return "err"
 		}
 		seg = append(seg, b)
+	}
+	if len(seg) == 0 {
+		return "empty"
 	}
 	var ierr error
 	if m, where := mc.CatchStack(func() { ierr = importer.Import(seg...) }); m != "" {
@@ -114,6 +126,57 @@ func runFork(r *mc.Run, c ForkCase) string {
 	}
 	r.Count("fork_imports_"+strings.SplitN(out, ":", 2)[0], 1)
 	return out
+}
+
+// inactCfg: inactivity slashing on.  A fork block is executed by the builder on a fresh state object per block,
+// by the side-chain verification of an importer on ONE state object for consecutive blocks: a validator record
+// cached across blocks (last-active round) must not change the verdict.
+func inactCfg() chainx.ParamCfg {
+	c := forkCfg()
+	c.InactivityWait, c.ExtraChamber = 1, 2
+	return c
+}
+
+// runLongForks: forks of 3..4 (thorough 5) empty blocks, every proposer pattern over {c1, s1} that the
+// look-back state makes eligible, under the inactivity configuration.
+func runLongForks(r *mc.Run) {
+	chainx.SetParams(inactCfg())
+	maxLen := 4
+	if !r.Quick() {
+		maxLen = 5
+	}
+	var seqs [][]string
+	var gen func(cur []string)
+	gen = func(cur []string) {
+		if len(cur) >= 3 {
+			seqs = append(seqs, append([]string{}, cur...))
+		}
+		if len(cur) == maxLen {
+			return
+		}
+		for _, op := range []string{"c1:", "s1:"} {
+			gen(append(cur, op))
+		}
+	}
+	gen(nil)
+	var cases []ForkCase
+	for forkAt := 0; forkAt <= 2; forkAt++ {
+		for _, s := range seqs {
+			for _, imp := range []int{forkAt, len(mainOps)} {
+				for _, u := range []bool{false, true} {
+					cases = append(cases, ForkCase{ForkAt: forkAt, Fork: s, Importer: imp, Ucon: u, Inact: true})
+				}
+			}
+		}
+	}
+	r.SetExtra("long_fork_import_cases_under_inactivity_slashing", len(cases))
+	r.ForEach(len(cases), func(_ int, i int) {
+		out := runFork(r, cases[i])
+		r.Count("long_fork_import_cases_run", 1)
+		if r.Distinct(fmt.Sprintf("longfork|%d|%d|%v|%d|%s", cases[i].ForkAt, cases[i].Importer, cases[i].Ucon, len(cases[i].Fork), out)) {
+			r.Sample(cases[i].String() + " => " + out)
+		}
+	})
 }
 
 func runForks(r *mc.Run) {
